@@ -18,7 +18,7 @@ RULE = (
     "orientation + yaw/pitch/roll; camera offsets; view angles 10deg..360x180deg; visibleDistance 5..60; ray "
     "density / explicit ray count / distance scaling) each with 6-10 point-like targets placed in the viewer's "
     "local frame (deep inside, outside by azimuth / altitude / distance, near the boundary, random), 0-2 solid "
-    "targets (box/spheroid/cylinder/cone; ahead, behind, straddling the window edge or the back plane, enclosing "
+    "targets (box/spheroid/cylinder/cone; ahead, behind, straddling the window edge (also behind the viewer for > 180 deg windows) or the back plane, enclosing "
     "the camera, beyond range) and 0-4 box occluders built relative to a target (fully covering, partially "
     "covering, beyond the target, non-occluding, random). Every target is queried with a chain of growing "
     "occluder subsets. A query is non-trivial when the oracle answer is definite and the viewer is away from the "
